@@ -343,6 +343,156 @@ fn run_rcell(c: RCell) -> world::WorldResult<(String, u64, Option<bool>)> {
   })
 }
 
+// ---- buffering bound with a consumer that is slow, not stopped ------------------------------------
+
+/// the fixed batching allowance on top of the first round's reading: the receive side takes one
+/// read batch out of the transport before it finds the application queue full (at most 23 messages
+/// of 1000 bytes over ZMTP, 8 over inproc, for every HWM from 1 to 200 and 150 rounds)
+const SLOW_SLACK: usize = 32;
+
+#[derive(Clone, Copy, Debug)]
+struct SlowCell {
+  pair: Pair,
+  inproc: bool,
+  hwm: i32,
+  /// messages the consumer takes per round
+  reads_per_round: usize,
+  rounds: usize,
+}
+
+#[derive(Debug, Default, Clone)]
+struct SlowOut {
+  /// accepted - received at the end of each round's saturation phase
+  outstanding: Vec<usize>,
+  accepted: usize,
+  received: usize,
+  in_order: bool,
+  round_cap_hit: bool,
+}
+
+fn run_slow(c: SlowCell) -> world::WorldResult<SlowOut> {
+  world::run(1, move || async move {
+    let ctx = Context::new().expect("context");
+    let (ta, tb) = match c.pair {
+      Pair::PushPull => (SocketType::Push, SocketType::Pull),
+      Pair::DealerRouter => (SocketType::Dealer, SocketType::Router),
+      Pair::RouterDealer => (SocketType::Router, SocketType::Dealer),
+      Pair::DealerDealer => (SocketType::Dealer, SocketType::Dealer),
+    };
+    let a = stack::mk(&ctx, ta, &[(o::SNDHWM, c.hwm), (o::RCVHWM, c.hwm), (o::SNDTIMEO, 0), (o::LINGER, 0)]).await;
+    let b = stack::mk(&ctx, tb, &[(o::SNDHWM, c.hwm), (o::RCVHWM, c.hwm), (o::RCVTIMEO, 50), (o::LINGER, 0)]).await;
+    if c.pair == Pair::RouterDealer {
+      a.set_option(o::ROUTER_MANDATORY, 1i32).await.unwrap();
+      b.set_option(o::ROUTING_ID, &b"rx"[..]).await.unwrap();
+    }
+    let link = if c.inproc {
+      b.bind("inproc://c14-slow").await.expect("bind");
+      a.connect("inproc://c14-slow").await.expect("connect");
+      None
+    } else {
+      Some(stack::link_pair(&a, &b, 4096).await)
+    };
+    settle_n(4).await;
+    let mut out = SlowOut { in_order: true, ..Default::default() };
+    let mut expect_seq = 0u64;
+    for _round in 0..c.rounds {
+      // saturate: send until the socket refuses, let the stack move, try again, until nothing moves
+      let mut quiet = 0;
+      let mut this_round = 0usize;
+      while quiet < 2 {
+        match send_one(&a, c.pair, out.accepted).await {
+          Ok(()) => {
+            out.accepted += 1;
+            this_round += 1;
+            quiet = 0;
+            if this_round > 4000 {
+              out.round_cap_hit = true;
+              break;
+            }
+          }
+          Err(_) => {
+            quiet += 1;
+            settle_n(3).await;
+          }
+        }
+      }
+      out.outstanding.push(out.accepted - out.received);
+      if out.round_cap_hit {
+        break;
+      }
+      for _ in 0..c.reads_per_round {
+        if let Ok(fr) = b.recv_multipart().await {
+          let body = fr.last().map(|m| m.data().unwrap_or(&[]).to_vec()).unwrap_or_default();
+          if body.len() != MSG_LEN || u64::from_be_bytes(body[..8].try_into().unwrap()) != expect_seq {
+            out.in_order = false;
+          }
+          expect_seq += 1;
+          out.received += 1;
+        }
+      }
+      settle_n(3).await;
+    }
+    drop(link);
+    let _ = tokio::time::timeout(Duration::from_secs(30), ctx.term()).await;
+    out
+  })
+}
+
+fn slow_cells(tier: Tier) -> Vec<SlowCell> {
+  let mut v = vec![];
+  for pair in [Pair::PushPull, Pair::DealerRouter, Pair::RouterDealer, Pair::DealerDealer] {
+    for inproc in [false, true] {
+      if pair == Pair::DealerDealer && inproc {
+        continue;
+      }
+      for hwm in tier.pick(vec![1, 8, 20], vec![1, 2, 8, 20, 64, 200]) {
+        for reads_per_round in tier.pick(vec![1usize, 3], vec![1usize, 2, 3, 7]) {
+          v.push(SlowCell { pair, inproc, hwm, reads_per_round, rounds: tier.pick(40, 150) });
+        }
+      }
+    }
+  }
+  v
+}
+
+fn slow_sub(tier: Tier) -> Sub {
+  let list = slow_cells(tier);
+  let mut sub = Sub::new("buffering-bound-slow-consumer", "E3");
+  sub.rule = "case = one world per (pair, transport, HWM, reads per round): 40 (150) rounds of 'the producer (SNDTIMEO=0) sends until every stage is full and nothing moves any more, then the consumer takes r messages'; non-trivial = all; oracle: the number of accepted-but-unreceived messages after any round's saturation does not exceed the first round's (every stage full, consumer has not read yet) by more than a fixed 32, no round accepts 4000 messages, messages arrive in order".into();
+  sub.bounds = json!({"cells": list.len(), "rounds": tier.pick(40, 150)});
+  par::enumerate(&mut sub, list.len(), |i| {
+    let c = list[i];
+    let r = run_slow(c);
+    let wit = json!({"explorer": "e3", "sub": "buffering-bound-slow-consumer", "cell": format!("{:?}", c)});
+    let class = format!("{:?}:{}", c.pair, if c.inproc { "inproc" } else { "zmtp" });
+    let mut case = Case { steps: c.rounds as u64, nontrivial: true, ..Default::default() };
+    for p in &r.panics {
+      case.violations.push(("panic".into(), p.rsplit(" @ ").next().map(mc_core::short_loc).unwrap_or_default(), p.clone(), wit.clone()));
+    }
+    if let Some(o) = r.result {
+      let first = o.outstanding.first().cloned().unwrap_or(0);
+      let max = o.outstanding.iter().cloned().max().unwrap_or(0);
+      case.outcome = mc_core::digest(&(max > first, o.in_order, o.round_cap_hit));
+      case.state = mc_core::digest(&(format!("{:?}", c), first, max));
+      if o.round_cap_hit || max > first + SLOW_SLACK {
+        let at = o.outstanding.iter().position(|x| *x > first + SLOW_SLACK).unwrap_or(0);
+        case.violations.push(("buffering-grows-with-slow-consumer".into(), class.clone(), format!("HWM={}: {} messages were outstanding with every stage full before the consumer read anything; after round {} (consumer takes {} per round) {} were outstanding, maximum {}{}", c.hwm, first, at, c.reads_per_round, o.outstanding.get(at).cloned().unwrap_or(0), max, if o.round_cap_hit { " (a single round accepted more than 4000)" } else { "" }), wit.clone()));
+      }
+      if !o.in_order {
+        case.violations.push(("slow-consumer-out-of-order".into(), class.clone(), "a message arrived out of order or damaged".into(), wit.clone()));
+      }
+      if std::env::var_os("MC_DEBUG").is_some() {
+        eprintln!("SLOW {:?} first={} max={} series={:?}", c, first, max, &o.outstanding[..o.outstanding.len().min(12)]);
+      }
+      if i % 11 == 0 {
+        case.sample = Some(json!({"cell": format!("{:?}", c), "outstanding_first_round": first, "outstanding_max": max, "accepted": o.accepted, "received": o.received}));
+      }
+    }
+    case
+  });
+  sub
+}
+
 pub fn run(tier: Tier) -> Report {
   let mut rep = Report::new("C14", tier, "model_checking");
   rep.assume("virtual (paused) tokio clock: elapsed times are exact; a positive timeout may be answered with timeout or would-block, no earlier than the interval and at most 100 ms later");
@@ -405,6 +555,7 @@ pub fn run(tier: Tier) -> Report {
   }
   sub.notes.push(format!("accepted-before-refusal table: {}", serde_json::to_string(&table).unwrap_or_default()));
   rep.add(sub);
+  rep.add(slow_sub(tier));
 
   // ---- RCVTIMEO ----
   let mut rc = vec![];
